@@ -91,7 +91,8 @@ def run_finish(script, noise):
     loop = net.loop
     s0 = Stamp(loop, conn.start_connection())
     loop.run_idle(); net.complete_resolve(); loop.run_idle(); net.complete_sock(); loop.run_idle()
-    assert s0.ending() == "success", s0.ending()
+    if s0.ending() != "success":
+        raise common.LibraryMisbehaved("start-connection", f"start_connection() with a resolver and a socket that answer at once ended as {s0.ending()}")
     st = Stamp(loop, conn.finish_connection(login=False))
     loop.run_idle()
     dev = None
